@@ -448,8 +448,14 @@ class Folder:
                 if isinstance(k_, str):
                     return Enum(b.name, k_)
                 raise Unfoldable('enumeration lookup by a non-string')
+            k2_ = self.conc(self.ev(e.slice, env))
+            if isinstance(b, (dict, list, tuple, str, bytes)):
+                try:
+                    return b[k2_]
+                except (KeyError, IndexError, TypeError) as ex:
+                    raise Raised(type(ex).__name__, e)       # TypeError: unhashable key / non-integer index - what the code would raise
             try:
-                return b[self.conc(self.ev(e.slice, env))]
+                return b[k2_]
             except (KeyError, IndexError) as ex:
                 raise Raised(type(ex).__name__, e)
         if isinstance(e, ast.Attribute):
@@ -462,6 +468,12 @@ class Folder:
                 return Enum(b.name, e.attr)
             if isinstance(b, (EnumClass, ClassRef)) and e.attr in ('__name__', '__qualname__'):
                 return b.name
+            if isinstance(b, EnumClass) and e.attr == '__members__':
+                if b.name not in self.enum_tables:
+                    raise Unfoldable('members of enums.%s' % b.name)
+                return {n_: Enum(b.name, n_) for n_ in self.enum_tables[b.name]}
+            if isinstance(b, tuple) and hasattr(type(b), '_fields') and e.attr in type(b)._fields:
+                return getattr(b, e.attr)
             if isinstance(b, Enum) and e.attr == 'value':
                 if b.cls in self.enum_values and b.name in self.enum_values[b.cls]:
                     return self.enum_values[b.cls][b.name]
